@@ -3,6 +3,8 @@ package c24
 import (
 	"crypto/sha256"
 	"fmt"
+	"os"
+	"runtime/pprof"
 	"sort"
 	"strings"
 
@@ -62,7 +64,11 @@ func (f *family) evalInput(idx []int) (ev evaluated, keyBytes []byte, tricky boo
 func (f *family) show(idx []int) any {
 	m := map[string]any{}
 	for k, i := range idx {
-		m[f.Comps[k].Name] = f.Comps[k].M[i].Show
+		sh := f.Comps[k].M[i].Show
+		if fn, ok := sh.(func() any); ok {
+			sh = fn()
+		}
+		m[f.Comps[k].Name] = sh
 	}
 	return m
 }
@@ -246,10 +252,17 @@ func Run(o *core.Options) int {
 		"coarse (answer-relevant) class additionally identifies: nil and empty request/condition context; nil and empty filter slices; duplicated filter entries; a UserFilter ObjectRelation {object, relation} with the user string object#relation it denotes; RelationReference.Condition inside AllowedUserTypeRestrictions (ignored by every datastore); edges that differ only in their From node; the request relation of an edge key.",
 		"nil and empty ObjectIDs are one class, as the repository's key test documents (TestReadStartingWithUserKey/nil_object_ids_equals_empty_object_ids); the memory/SQL disagreement on an empty set is C13's subject; non-empty sets are distinct from both",
 		"type names (RelationReference.Type in AllowedUserTypeRestrictions, the type part of a UserFilter object) are restricted to strings without ':', '#', '@' and whitespace, which model validation enforces; every other component (store, model, object ids, relations, users, condition names, context keys/values) keeps the separator- and tag-laden strings",
+		"systematic context values: every google.protobuf.Value with <= 5 nodes (thorough 6) and container nesting <= 3 over leaves {a,b,c}, lists of 0-2 items and structs of 0-2 fields with keys from {\"\",a,b,x}, plus every value with <= 3 nodes (thorough 5) over leaves {\"\",a,b,c,1,\"1\",true,null}; each used as request context {x: v}, as the condition context of one contextual tuple, and (values of <= 2 nodes, thorough 3) as both at once, for the sub-problem, batch and edge keys",
 		"contextual-tuple lists with two tuples of one (object, relation, user) are not in S (not a legitimate request, DESIGN C24)",
 		"EdgeCacheKey inputs go through check.NewRequest and real weighted-graph edges of one 3-type model under three model ids, so object/relation/user are model-valid there; every other function gets raw strings",
 	)
 	keys.Seed = 0x9E3779B97F4A7C15
+	if p := os.Getenv("VERIF_C24_CPUPROFILE"); p != "" {
+		if fh, err := os.Create(p); err == nil {
+			_ = pprof.StartCPUProfile(fh)
+			defer pprof.StopCPUProfile()
+		}
+	}
 	fams, err := families(o.Thorough())
 	if err != nil {
 		fmt.Println("harness error:", err)
